@@ -1,5 +1,6 @@
 #!/bin/bash
 # Re-run every seeded change against the checks that are recorded to catch it (meta.json caught_by_quick).
+# (checks other than C19 run against a scratch copy of /repo and of the harness - tools/seed_run_iso.sh)
 # Exit 0 iff every listed check reports a violation (rc=1) with the change applied and /repo is clean again.
 cd /verif || exit 2
 fail=0
@@ -9,7 +10,12 @@ for d in seeded/*/; do
   checks=$(python3 -c "import json;print(' '.join(json.load(open('$d/meta.json'))['caught_by_quick']))")
   [ -n "$checks" ] || { echo "$id: no catching check recorded"; continue; }
   tier=$(python3 -c "import json;print(json.load(open('$d/meta.json')).get('tier','quick'))")
-  out=$(tools/seed_run.sh "$PWD/$d/patch.diff" $tier $checks)
+  iso=""; direct=""
+  for c in $checks; do if [ "$c" = "C19" ]; then direct="$direct $c"; else iso="$iso $c"; fi; done
+  out=""
+  [ -n "$iso" ] && out="$(tools/seed_run_iso.sh "$PWD/$d/patch.diff" $tier $iso | grep -E '^C[0-9]+ ')"
+  [ -n "$direct" ] && out="$out
+$(tools/seed_run.sh "$PWD/$d/patch.diff" $tier $direct | grep -E '^C[0-9]+ ')"
   echo "$out" | sed "s/^/$id: /"
   echo "$out" | grep -q "rc=0" && fail=1
   echo "$out" | grep -q "rc=2" && fail=1
